@@ -113,3 +113,53 @@ func VerifHarness_C01_inv() {
 	verifrt.Assert(w.converged(), "C01.converges.tip-height-equals-peers")
 	verifrt.Reach("C01.inv.done")
 }
+
+// VerifHarness_C01_pending_fork: the node is in sync; the peer announces three new blocks (all
+// requested, bodies arrive and are processed for the first k of them), then reorganises onto a
+// branch that forks off one of the announced-but-unprocessed blocks.  Requests beyond the fork point
+// are discarded, the new branch is requested, and the node ends on the peer's tip.
+func VerifHarness_C01_pending_fork() {
+	ctx := context.Background()
+	k, err := vkNewNode(ctx, nil)
+	verifrt.Assert(err == nil, "C01.kit.node-loads")
+	k.node.state.SetVersionReceived()
+	k.node.state.MarkConnected()
+	tree := vkNewTree(*k.node.blocks.LastHash())
+	tree.add("a1", "", nil)
+	tree.add("a2", "a1", nil)
+	tree.add("a3", "a2", nil)
+	tree.add("a4", "a3", nil)
+	tree.add("a5", "a4", nil)
+	forkAt := []string{"a3", "a4"}[verifrt.Choose("fork-parent", 2)]
+	tree.add("b1", forkAt, nil)
+	tree.add("b2", "b1", nil)
+	tree.add("b3", "b2", nil)
+	w := &c01World{ctx: ctx, k: k, tree: tree, heard: map[string]bool{}}
+	w.peer = vkNewPeer(tree, "a2")
+	w.settle(4)
+	verifrt.Assert(w.converged() && k.node.state.IsReady(), "C01.pending-fork.settled-in-sync")
+	w.peer.setBest("a5")
+	w.deliver() // the announcement of a3..a5: three block requests
+	verifrt.Assert(k.node.state.TotalBlockRequestCount() == 3, "C01.pending-fork.three-blocks-requested")
+	// the peer answers the block requests one by one; it has sent the first nb bodies when it
+	// changes its mind, announces the new branch, and only then sends the remaining bodies
+	bodies := w.peer.toNode
+	nb := verifrt.Choose("bodies-before-the-fork", 3)
+	verifrt.Assert(len(bodies) == 3, "C01.pending-fork.three-bodies-on-their-way")
+	w.peer.toNode = append([]wire.Message{}, bodies[:nb]...)
+	for w.deliver() {
+		if verifrt.Choose("processed", 2) == 1 {
+			w.process()
+		}
+	}
+	w.peer.setBest("b3")
+	w.peer.toNode = append(w.peer.toNode, bodies[nb:]...)
+	before := w.countInSync()
+	w.settle(8)
+	w.checkInSyncNotifications(before)
+	verifrt.Note("closure: node height %d tip %s, peer best %v", k.node.blocks.LastHeight(), tree.byHash[*k.node.blocks.LastHash()], w.peer.best)
+	vkChainLinked(ctx, k.node, "closure")
+	verifrt.Sig("pending-fork", forkAt, "stall")
+	verifrt.Assert(w.converged(), "C01.converges.tip-height-equals-peers")
+	verifrt.Reach("C01.pending-fork.done")
+}
